@@ -36,13 +36,13 @@ package ast
 //@ cellinv E_ast_Expr v: nodeOK(v)
 //@ cellinv E_ast_Stmt v: nodeOK(v)
 //@ cellinv MV_Str_ast_Expr v: nodeOK(v)
-//@ cellinv E_S_ast_VarStmt d: optNode(d.Initializer) && d.Name.Type == token.IDENTIFIER && d.Line == d.Name.Line
+//@ cellinv E_S_ast_VarStmt d: optNode(d.Initializer) && d.Name.Type == token.IDENTIFIER && d.Line == d.Name.Line && !isBuiltinName(d.Name.Lexeme)
 // the line a node reports for diagnostics is the line of the token it is named after (C06)
 //@ typeinv ast.Identifier i: i.Line == i.Name.Line
 //@ typeinv ast.VarStmt d: d.Line == d.Name.Line
 // the token a node records is the token the grammar puts there (a name is an IDENTIFIER, the call's token is its ')')
 //@ cellinv H_ast_Identifier_Name t: t.Type == token.IDENTIFIER
-//@ cellinv H_ast_VarStmt_Name t: t.Type == token.IDENTIFIER
+//@ cellinv H_ast_VarStmt_Name t: t.Type == token.IDENTIFIER && !isBuiltinName(t.Lexeme)
 //@ cellinv H_ast_AssignmentStmt_Name t: t.Type == token.IDENTIFIER
 //@ cellinv H_ast_FunctionStmt_Name t: t.Type == token.IDENTIFIER
 //@ cellinv H_ast_PropertyAccess_Property t: t.Type == token.IDENTIFIER
